@@ -130,6 +130,14 @@ pub fn finish(mut o: Outcome) -> i32 {
     let known = load_known();
     let mut by_sig: BTreeMap<String, Finding> = BTreeMap::new();
     for f in o.findings.drain(..) {
+        // a failure of the harness itself (a prepared prefix that no longer runs, a copy that failed, a scheduler that
+        // got stuck) is a machinery error (exit 2), never a verdict about the property
+        if f.clause == "harness" || f.clause.starts_with("machinery") {
+            if o.machinery_errors.len() < 5 {
+                o.machinery_errors.push(format!("{} [{}]: {}", f.clause, f.program.join("; "), f.detail));
+            }
+            continue;
+        }
         by_sig.entry(f.sig.clone()).or_insert(f);
     }
     let mut new_violations = 0;
